@@ -371,6 +371,31 @@ func c13System(rng *rand.Rand, forceDefault bool) (sig, detail string, trace []s
 			}
 		}
 	}
+	// "sends a ping every interval while the connection is healthy": a connection that stayed up for many intervals
+	// (four, and at least 300 ms, so that a starved ticker on a loaded machine cannot be blamed) shows at least one
+	var lastT time.Duration
+	if len(ev) > 0 {
+		lastT = ev[len(ev)-1].T
+	}
+	endOf := map[int]time.Duration{}
+	for _, e := range ev {
+		if (e.Kind == memnet.KClose || e.Kind == memnet.KPeerClose) && endOf[e.Conn] == 0 {
+			endOf[e.Conn] = e.T
+		}
+	}
+	for cn, a := range active {
+		end := lastT
+		if t, ok := endOf[cn]; ok {
+			end = t
+		}
+		need := 4 * interval
+		if need < 300*time.Millisecond {
+			need = 300 * time.Millisecond
+		}
+		if end-a >= need && pings[cn] == 0 {
+			return fail("no-ping-sent", "connection %d was up for %v with a ping interval of %dms configured, and not a single PINGREQ was written on it", cn, (end - a).Round(time.Millisecond), ping)
+		}
+	}
 	if silentAt < 0 {
 		// healthy run: only a silent peer may be declared dead
 		if len(libClose) > 0 || len(run.Tr.Conns) != 1 {
